@@ -266,6 +266,14 @@ RunSched(doc, sts, sch, i, fed, acc) ==
            last == fed + n = Len(AllUnits(doc)) /\ \A j \in (i + 1)..Len(sch) : sch[j] = 0
        IN RunSched(doc, r.sts, sch, i + 1, fed + n, [out |-> acc.out \o r.em, dev |-> acc.dev \cup (IF last THEN {} ELSE r.dev)])
 RunChunked(doc, fs, sch) == RunSched(doc, InitStages(fs), sch, 1, 0, [out |-> <<>>, dev |-> {}])
+\* the same, but the units not yet delivered when the stream ends enter through do_end (a decoder's end())
+RECURSIVE RunSchedEnd(_,_,_,_,_,_)
+RunSchedEnd(doc, sts, sch, i, fed, acc) ==
+  IF i > Len(sch) THEN acc \o ChainEnd(doc, sts, 1, SubSeq(AllUnits(doc), fed + 1, Len(AllUnits(doc))))
+  ELSE LET r == ChainFilter(doc, sts, 1, SubSeq(AllUnits(doc), fed + 1, fed + sch[i]), {}) IN
+       IF sch[i] = 0 THEN RunSchedEnd(doc, sts, sch, i + 1, fed, acc)      \* nothing surfaced: the stages are not called
+       ELSE RunSchedEnd(doc, r.sts, sch, i + 1, fed + sch[i], acc \o r.em)
+RunChunkedEnd(doc, fs, sch) == RunSchedEnd(doc, InitStages(fs), sch, 1, 0, <<>>)
 
 -----------------------------------------------------------------------------
 (* Rendering to strings (the bytes the real filter sees and produces) *)
